@@ -138,6 +138,7 @@ fn first_diff(a: &[WrapNode], b: &[WrapNode]) -> Option<String> {
             f!(labels);
             f!(func_entry);
             f!(func_exit);
+            f!(func_pairs);
             f!(nexts);
             f!(prevs);
             f!(reg_in);
